@@ -399,7 +399,8 @@ func (w *bWorld) setup() error {
 			return err
 		}
 		if w.isDir(s) {
-			for _, f := range []string{"a.txt", "b.txt"} {
+			os.MkdirAll(filepath.Join(w.srcPath(s), ".settings"), 0755)
+			for _, f := range []string{"a.txt", "b.txt", ".env", ".settings/level.txt"} {
 				if err := os.WriteFile(filepath.Join(w.srcPath(s), f), []byte("c-"+f), 0644); err != nil {
 					return err
 				}
@@ -1010,17 +1011,27 @@ func (w *bWorld) apply(c *bCase, st *bStep, exe string) error {
 	case "edit_src":
 		if w.isDir(st.S) {
 			w.srcVer[st.S]++
+			plain := func() []os.DirEntry {
+				all, _ := os.ReadDir(w.srcPath(st.S))
+				var out []os.DirEntry
+				for _, e := range all {
+					if !e.IsDir() && !strings.HasPrefix(e.Name(), ".") {
+						out = append(out, e)
+					}
+				}
+				return out
+			}
 			switch st.Kind {
 			case "rename":
 				// rename a file inside the directory, keeping contents
-				ents, _ := os.ReadDir(w.srcPath(st.S))
+				ents := plain()
 				if len(ents) > 0 {
 					old := ents[0].Name()
 					os.Rename(filepath.Join(w.srcPath(st.S), old), filepath.Join(w.srcPath(st.S), fmt.Sprintf("r%d-%s", w.srcVer[st.S], old)))
 				}
 			case "swap":
 				a, _ := os.ReadFile(filepath.Join(w.srcPath(st.S), "b.txt"))
-				ents, _ := os.ReadDir(w.srcPath(st.S))
+				ents := plain()
 				if len(ents) >= 2 {
 					p0, p1 := filepath.Join(w.srcPath(st.S), ents[0].Name()), filepath.Join(w.srcPath(st.S), ents[1].Name())
 					x, _ := os.ReadFile(p0)
@@ -1029,6 +1040,11 @@ func (w *bWorld) apply(c *bCase, st *bStep, exe string) error {
 					os.WriteFile(p1, x, 0644)
 				}
 				_ = a
+			case "hidden":
+				// only a hidden entry of the directory changes
+				os.WriteFile(filepath.Join(w.srcPath(st.S), ".env"), []byte(fmt.Sprintf("h-v%d", w.srcVer[st.S])), 0644)
+			case "hidden-nested":
+				os.WriteFile(filepath.Join(w.srcPath(st.S), ".settings", "level.txt"), []byte(fmt.Sprintf("n-v%d", w.srcVer[st.S])), 0644)
 			default:
 				os.WriteFile(filepath.Join(w.srcPath(st.S), "a.txt"), []byte(fmt.Sprintf("c-v%d", w.srcVer[st.S])), 0644)
 			}
